@@ -27,13 +27,22 @@ def run(tier, seed, t0):
     mh.violations = [v for v in mh.violations if v.get("crash") or "does_not_follow_translation" in v["key"]]
     m.violations += mh.violations; m.inconclusive += mh.inconclusive; m.harness_failures += mh.harness_failures
     m.add_bins({"centroid_translation_probes": mh.bins.get("hist_translation_probes", 0)}); m.maxima.update({"translate_probe_dev_over_tol": mh.maxima.get("translate_probe_dev_over_tol", 0)})
-    floors = {"well_conditioned_tissues": (m.nontrivial, 0.4 * n), "translations_compared": (m.bins.get("translations_compared", 0), 1.5 * n)}
+    # the translated input FILE through the initial triangulation (sampling grid, ball pivoting, first refinement)
+    mi = Merged(); ni = T(tier, 160, 6000)
+    R.run_inv(Inv("translate_init", ni, "plain", args=["--translations=%d" % T(tier, 3, 5)], timeout=T(tier, 1500, 6 * 3600), first=7000000), seed, wd, mi)
+    m.violations += mi.violations; m.inconclusive += mi.inconclusive; m.harness_failures += mi.harness_failures; m.evaluations += mi.evaluations; m.nontrivial += mi.nontrivial; m.sigs |= mi.sigs; m.distinct_unlisted += mi.distinct_unlisted
+    m.add_bins({k: v for k, v in mi.bins.items() if k.startswith("init_")}); m.maxima.update({k: v for k, v in mi.maxima.items() if k.startswith("init_")})
+    n_solver_nt = m.nontrivial - mi.nontrivial
+    floors = {"well_conditioned_tissues": (n_solver_nt, 0.4 * n), "translations_compared": (m.bins.get("translations_compared", 0), 1.5 * n)}
     for k in kinds:
         floors["translation_" + k] = (m.bins.get("translation:" + k, 0), 0.15 * n)
     # at most half of the compared translations may end inconclusive (both families ill-conditioned)
     floors["final_states_compared"] = (m.bins.get("final_states_compared", 0), 2.0 * n)
     floors["first_divisions_compared"] = (m.bins.get("first_divisions_compared", 0), 0.3 * n)
     floors["centroid_translation_probes"] = (m.bins.get("centroid_translation_probes", 0), nh)
+    floors["reconstructed_inputs_compared"] = (mi.nontrivial, 0.5 * ni)
+    floors["init_translations_compared"] = (mi.bins.get("init_translations_compared", 0), 1.5 * ni)
+    floors["init_conclusive_translations"] = (mi.bins.get("init_translations_compared", 0) - mi.bins.get("init_translations_inconclusive", 0), 0.9 * mi.bins.get("init_translations_compared", 0))
     floors["conclusive_translations"] = (m.bins.get("translations_compared", 0) - m.bins.get("translations_inconclusive", 0), 0.75 * m.bins.get("translations_compared", 0))
     return R.finish(ID, tier, seed, m,
                     "case = tissue scenario (7 families at the physical scale of the sample inputs, random parameters) x 4-8 translations of 7 kinds; per case 3 "
